@@ -66,9 +66,9 @@ SigCat == {E("sig", <<1, "PublicKeyIndex", SigNeed>>, x) : x \in {"len", "1", "2
 
 \* ---- parents and supplements -----------------------------------------------------------------
 Parents == << <<1, "sci", "sci">>, <<1, "sfi", "sfi">>, <<1, "rev", "rev">>, <<1, "res", "res">>, <<2, "sci", "sci">>, <<2, "sfi", "sfi">>, <<2, "rev", "rev">>, <<2, "res", "res">> >>
-\* id-of-other-kind: the id of an element of ANOTHER kind created earlier in the same block (an output id where a contract id belongs, ...);
-\* id-of-committed-other-kind: the same with an element of the committed state
-ParentCat == {E("parents", f, x) : f \in Range(Parents), x \in {"dup", "unknown-id", "drop", "id-of-other-kind", "id-of-committed-other-kind"}}
+\* id-of-committed-other-kind: the id of a committed element of ANOTHER kind (an output id where a contract id belongs, ...);
+\* (ids of elements of another kind created earlier in the same block: family "confuse" below)
+ParentCat == {E("parents", f, x) : f \in Range(Parents), x \in {"dup", "unknown-id", "drop", "id-of-committed-other-kind"}}
 SuppCat == {E("supp", <<1, t, "">>, x) : t \in {"sci", "sfi", "rev", "sp", "expiring"}, x \in {"missing", "extra", "dup", "reversed", "from-other-txn"}} \cup
            {E("supp", <<1, "txs", "">>, x) : x \in {"short", "long", "empty", "nil"}} \cup
            {E("supp", <<1, "sp.windowid", "res">>, x) : x \in {"zero", "tip"}} \cup
